@@ -5,6 +5,7 @@ package checks
 // C15 — environment (populated nodes), tiny independent RLP codec, fake-peer sessions.
 
 import (
+	"runtime"
 	"bytes"
 	"encoding/binary"
 	"fmt"
@@ -181,6 +182,9 @@ type c15Env struct {
 	genesis types.Hash
 	sends   []*nom.AccountBlock // confirmed user blocks on P
 	tainted bool
+	curC          *fw.C  // the running case (for verdicts reached inside the environment)
+	curCtx        string // what was sent last
+	stallReported bool
 }
 
 var c15env *c15Env
@@ -352,8 +356,67 @@ func (e *c15Env) barrier(settle time.Duration) bool {
 	case <-done:
 		return true
 	case <-time.After(c15Watchdog):
+		e.stallVerdict("chain insert lock not obtained by the barrier")
 		return false
 	}
+}
+
+// stallVerdict: the watchdog alone never decides; a structural proof that the insert lock is orphaned does.
+func (e *c15Env) stallVerdict(where string) {
+	if e.curC == nil || e.stallReported {
+		return
+	}
+	if proven, wit := c15InsertLockOrphaned(); proven {
+		e.stallReported = true
+		e.curC.Violation("message-loop-stalled chain-insert-lock-can-never-be-released", map[string]interface{}{"observed_at": where, "context": e.curCtx,
+			"proof": "a goroutine waits in chain.AcquireInsert and no goroutine is inside any function that holds the lock without itself waiting for it", "a_waiting_goroutine": wit})
+	}
+}
+
+// c15InsertLockOrphaned decides, from one goroutine dump, whether the chain insert lock can ever be released again.
+// The lock is taken only through chain.AcquireInsert, by a known set of functions that release it before they return.
+// If at least one goroutine waits inside AcquireInsert and NO goroutine is inside one of those functions without itself
+// waiting inside AcquireInsert, then whoever holds the lock is either gone (returned without unlocking) or is one of
+// the waiters (took it twice): no amount of further waiting helps. This is a statement about the structure of the
+// blocked program, not about elapsed time. A goroutine that legitimately holds the lock and is merely slow has one of
+// the holder frames and is not inside AcquireInsert: then the answer is "not proven" and the caller stays inconclusive.
+var c15LockHolders = []string{
+	"protocol.chainBridge.AddAccountBlocks", "protocol.chainBridge.InsertChain",
+	"protocol.(*broadcaster).CreateMomentum", "protocol.(*broadcaster).CreateAccountBlock",
+	"pillar.(*worker).generateNext", "pillar.(*worker).generateMomentum", "chain.(*chain).Init",
+	"simnet.(*Node).CreateMomentum", "simnet.(*Node).CreateAccountBlock",
+}
+
+func c15InsertLockOrphaned() (proven bool, witness string) {
+	buf := make([]byte, 16<<20)
+	dump := string(buf[:runtime.Stack(buf, true)])
+	waiting, active := 0, 0
+	var firstWaiter string
+	for _, g := range strings.Split(dump, "\n\n") {
+		inAcquire := strings.Contains(g, "chain.(*chain).AcquireInsert")
+		holder := false
+		for _, h := range c15LockHolders {
+			if strings.Contains(g, h+"(") {
+				holder = true
+			}
+		}
+		switch {
+		case inAcquire:
+			waiting++
+			if firstWaiter == "" || holder {
+				firstWaiter = g
+			}
+		case holder:
+			active++
+		}
+	}
+	if waiting > 0 && active == 0 {
+		if len(firstWaiter) > 2500 {
+			firstWaiter = firstWaiter[:2500]
+		}
+		return true, firstWaiter
+	}
+	return false, ""
 }
 
 // ---------------------------------------------------------------------------
